@@ -25,6 +25,7 @@ import (
 	"strings"
 	"sync"
 	"syscall"
+	"time"
 
 	"github.com/containerd/stargz-snapshotter/cache"
 	"github.com/containerd/stargz-snapshotter/estargz"
@@ -366,7 +367,7 @@ func cloneTOC(t *estargz.JTOC) *estargz.JTOC {
 	return n
 }
 
-var AlterKinds = []string{"bitflip", "bitflip-any", "truncate", "swap", "replace", "toc-digest", "toc-nodigest",
+var AlterKinds = []string{"bitflip", "bitflip-any", "truncate", "swap", "replace", "toc-digest", "toc-nodigest", "nodigest-replace",
 	"toc-size", "toc-offset", "toc-same", "forge", "ext-bitflip", "toc-trailing"}
 
 // Alter derives an altered view of kind k (at a PRNG position).  ok=false: not applicable.
@@ -421,18 +422,26 @@ func (b *Blob) Alter(rnd *verifutil.Rand, k string) (*View, bool) {
 			return nil, false
 		}
 		v.Blob = nb
-	case "replace", "forge":
+	case "replace", "forge", "nodigest-replace":
 		nb, e, payload, ok := b.replaceMember(rnd, ds[rnd.Intn(len(ds))])
 		if !ok {
 			return nil, false
 		}
 		v.Blob = nb
-		v.Forged[chunkKey(e.Name, e.ChunkOffset)] = payload
-		if k == "forge" { // ... and a TOC that pins the new payload
+		if k != "nodigest-replace" {
+			v.Forged[chunkKey(e.Name, e.ChunkOffset)] = payload
+		}
+		if k != "replace" {
+			// forge: a TOC that pins the new payload; nodigest-replace: a genuine-looking TOC
+			// (it hashes to the digest it is verified with) that records NO digest for that chunk
 			toc := cloneTOC(b.Toc)
 			for _, te := range toc.Entries {
 				if te.Name == e.Name && te.ChunkOffset == e.ChunkOffset && ((te.Type == "reg" && te.Size > 0) || te.Type == "chunk") {
-					te.ChunkDigest = digest.FromBytes(payload).String()
+					if k == "forge" {
+						te.ChunkDigest = digest.FromBytes(payload).String()
+					} else {
+						te.ChunkDigest, te.Digest = "", ""
+					}
 				}
 			}
 			nb2, ext, dg, err := b.reserialise(nb, toc)
@@ -607,6 +616,33 @@ type Src struct {
 	cur   []byte
 	Yield func() // called on every read (used to shake the schedule in race scenarios)
 	Reads int
+	// gate: reads overlapping [gateLo, gateHi) signal gateHit once and block until gateOpen is closed
+	gateLo, gateHi int64
+	gateOpen       chan struct{}
+	gateHit        chan struct{}
+	gateOnce       *sync.Once
+}
+
+// Gate blocks every later read overlapping [lo, hi) until the returned release function is called;
+// hit is closed when the first such read arrives.
+func (s *Src) Gate(lo, hi int64) (hit <-chan struct{}, release func()) {
+	s.mu.Lock()
+	defer s.mu.Unlock()
+	s.gateLo, s.gateHi = lo, hi
+	s.gateOpen = make(chan struct{})
+	h := make(chan struct{})
+	s.gateHit = h
+	s.gateOnce = new(sync.Once)
+	open := s.gateOpen
+	var once sync.Once
+	return h, func() {
+		once.Do(func() {
+			close(open)
+			s.mu.Lock()
+			s.gateOpen, s.gateHit, s.gateOnce = nil, nil, nil
+			s.mu.Unlock()
+		})
+	}
 }
 
 func (s *Src) Set(p []byte) {
@@ -618,7 +654,12 @@ func (s *Src) Set(p []byte) {
 func (s *Src) ReadAt(p []byte, off int64) (int, error) {
 	s.mu.RLock()
 	cur, y := s.cur, s.Yield
+	open, hit, once, lo, hi := s.gateOpen, s.gateHit, s.gateOnce, s.gateLo, s.gateHi
 	s.mu.RUnlock()
+	if open != nil && off < hi && lo < off+int64(len(p)) {
+		once.Do(func() { close(hit) })
+		<-open
+	}
 	if y != nil {
 		y()
 	}
@@ -704,10 +745,6 @@ type Session struct {
 	TocOK          []digest.Digest // digests the oracle accepts for the TOC actually used
 	VerifiedOK     bool            // a VerifyTOC succeeded
 	UsedUnverified bool            // data was read through the reader before that
-	// CloneTainted: a Cache(WithReader) walk compared a chunk with a digest that is not the one of the
-	// TOC parsed at open time and found it matching (memory store: Clone re-parses the TOC and
-	// nobody checks its digest).  Violations after that carry their own signature.
-	CloneTainted bool
 	Tag          string
 	// LayerLevel: the VR is a layer object (layer.Verify / SkipVerify / l.r): op lines are "l.*"
 	// and every reader handed out after a successful Verify must behave as verified.
@@ -1197,15 +1234,10 @@ func (s *Session) checkData(f *File, off int64, data []byte, how string) bool {
 	return okAll
 }
 
-// CloneSig is the signature of violations that follow a clone walk with an unverified foreign TOC.
+// CloneSig: Cache(WithReader) walked a clone carrying a TOC whose digest nobody compared.
 const CloneSig = "clone-prefetch-unverified-toc"
 
-func (s *Session) sig(generic string) string {
-	if s.CloneTainted {
-		return CloneSig
-	}
-	return generic
-}
+func (s *Session) sig(generic string) string { return generic }
 
 func (s *Session) stackInfo() string { return fmt.Sprintf("chunk=%d,min=%d", s.B.ChunkSize, s.B.MinChunk) }
 
@@ -1396,70 +1428,48 @@ func (s *Session) CacheAll(sel map[int]bool) error {
 }
 
 // CacheClone = VerifiableReader.Cache(WithReader(sr)) with sr serving view v (layer.backgroundFetch
-// reads the blob through another reader).  Returns false when the op was not generated (the clone
-// lays the chunks out differently, so the walk would use other cache keys).
+// reads the blob through another reader).  The walk goes over metadata.Reader.Clone(sr); the memory
+// store's clone re-parses the TOC from sr, and Cache must refuse it unless its digest is the TOC
+// digest of the layer.  Returns false when the op was not generated.
 func (s *Session) CacheClone(v *View) bool {
 	src2 := &Src{}
 	src2.Set(v.Blob)
-	cur := s.Cur
-	s.setEx(v.Ext) // the external TOC provider is shared by the clone
-	defer s.setEx(cur.Ext)
 	mk := func() *io.SectionReader { return io.NewSectionReader(src2, 0, int64(len(v.Blob))) }
 	mr2, err := s.MR.Clone(mk())
-	if err != nil {
+	if err != nil || mr2.TOCDigest() != s.MR.TOCDigest() {
+		before := s.cachedList(s.Chs)
 		err2 := s.VR.CacheReader(mk())
 		s.emit(s.pfx()+"clone.err", okerr(err2))
-		s.Out.Count("clone-refused")
-		return true
-	}
-	if os.Getenv("VERIF_C01_CLONE_GUARD") == "1" && mr2.TOCDigest() != s.MR.TOCDigest() {
-		// for a tree in which Cache(WithReader) refuses a clone whose TOC digest differs from the
-		// TOC digest of the layer object (the repair proposed for clone-prefetch-unverified-toc)
-		err2 := s.VR.CacheReader(mk())
-		s.emit(s.pfx()+"clone.err", okerr(err2))
-		s.Out.Count("clone-foreign-toc-refused")
+		if err != nil {
+			s.Out.Count("clone-failed")
+		} else {
+			s.Out.Count("clone-foreign-toc-" + okerr(err2))
+			// regression scenario of the repaired finding: chunks would be compared with the digests
+			// of a TOC nobody verified
+			if err2 == nil || s.cachedList(s.Chs) != before {
+				s.Out.Fail(CloneSig, fmt.Sprintf("%s: Cache(WithReader) walked a clone whose TOC digest %v differs from the TOC digest %v of the layer (result %v, view %s)",
+					s.Tag, mr2.TOCDigest(), s.MR.TOCDigest(), err2, v.Kind))
+			}
+		}
 		s.CheckCache("clone-prefetch")
 		return true
 	}
 	var items []string
-	taint := false
 	for _, c := range s.Chs {
 		fr, err := mr2.OpenFile(c.File.ID)
 		if err != nil {
 			return false
 		}
 		co, cs, dg2, ok := fr.ChunkEntryForOffset(c.Off)
-		if !ok || co != c.Off || cs != c.Size {
-			return false
+		if !ok || co != c.Off || cs != c.Size || dg2 != c.Dgst {
+			return false // same TOC digest, other contents: cannot happen short of a collision
 		}
 		buf := make([]byte, c.Size)
 		_, rerr := fr.ReadAt(buf, c.Off)
 		if rerr == io.EOF {
 			rerr = nil
 		}
-		st := classify(buf, rerr, c.Dgst)
-		k := byte('x')
-		if dg2 == c.Dgst {
-			k = 'o'
-		} else if d2, perr := digest.Parse(dg2); perr != nil {
-			k = 'n'
-		} else if rerr == nil && digest.FromBytes(buf) == d2 {
-			k = 'm'
-			if st != 'g' {
-				taint = true
-			}
-		}
-		items = append(items, fmt.Sprintf("%d:%c:%c", c.Gid, st, k))
-	}
-	for _, f := range s.Files { // same files, same sizes
-		a, err := mr2.GetAttr(f.ID)
-		if err != nil || a.Size != f.Size {
-			return false
-		}
-	}
-	if taint {
-		s.CloneTainted = true
-		s.Out.Count("clone-foreign-toc-matching")
+		items = append(items, fmt.Sprintf("%d:%c", c.Gid, classify(buf, rerr, c.Dgst)))
 	}
 	err = s.VR.CacheReader(mk())
 	s.emit(fmt.Sprintf("%sclone %s cached=%s", s.pfx(), dash(strings.Join(items, ",")), s.cachedList(s.Chs)), okerr(err))
@@ -1505,6 +1515,51 @@ func (s *Session) Race(sel map[int]bool, d digest.Digest, pause func(who int)) (
 		s.VerifiedOK = true
 	}
 	s.CheckCache("race")
+	return
+}
+
+// Straddle = Cache() whose fetch of chunk c is held inside the blob read while VerifyTOC(d) runs to
+// completion, then released: the critical section of that readAndCache comes AFTER the decision.
+func (s *Session) Straddle(c *Chunk, d digest.Digest) (verr, cerr error) {
+	offs, cs := s.selection(nil)
+	items := s.items(cs)
+	arg := s.DigestArg(d)
+	lo, hi := c.COff, c.COff+1
+	for _, st := range s.B.Streams {
+		if st.Off == c.COff {
+			hi = st.End
+		}
+	}
+	if c.COff < 0 {
+		return nil, nil
+	}
+	hit, release := s.Src.Gate(lo, hi)
+	done := make(chan struct{})
+	go func() {
+		defer close(done)
+		cerr = s.VR.Cache(func(o int64) bool { return offs == nil || offs[o] })
+	}()
+	held := true
+	select {
+	case <-hit:
+	case <-done:
+		held = false
+	case <-time.After(5 * time.Second):
+		held = false
+	}
+	verr = s.VR.VerifyTOC(d)
+	release()
+	<-done
+	s.emit(fmt.Sprintf("%srace %s %s cached=%s", s.pfx(), arg, items, s.cachedList(cs)),
+		fmt.Sprintf("verify=%s cache=%s", okerr(verr), okerr(cerr)))
+	s.Out.Count(fmt.Sprintf("straddle-held=%v-verify=%s-cache=%s", held, okerr(verr), okerr(cerr)))
+	if verr == nil {
+		if !s.oracleAccepts(d) {
+			s.Out.Fail("verify-wrong-digest-accepted", fmt.Sprintf("%s: VerifyTOC(%s) succeeded but the TOC hashes to %v", s.Tag, d, s.TocOK))
+		}
+		s.VerifiedOK = true
+	}
+	s.CheckCache("straddling-prefetch")
 	return
 }
 
